@@ -88,7 +88,6 @@ Definition enc_fres (r : fres) : list Z :=
   | FOk l => 0 :: enc_zs (map bits_of_f64 l)
   | FErr _ => [1; 1]
   | FFuel => [2]
-  | FHang => [3]
   end.
 Fixpoint fpairs_of (l : list Z) : famap :=
   match l with
@@ -96,7 +95,7 @@ Fixpoint fpairs_of (l : list Z) : famap :=
   | _ => []
   end.
 (* iteration budget of the float Range loops; the harness sends only calls that
-   end (or provably hang) within 5000 iterations *)
+   end within 3000 iterations *)
 Definition frange_cap : nat := Z.to_nat 20000.
 
 Definition c13f_run (fn : Z) (a : list Z) : list Z :=
@@ -258,13 +257,11 @@ Definition c13_agree (w obs : list Z) : bool :=
 (* The float64 instantiations (fn 50..68): IEEE arithmetic determines every
    result bit for bit (C13_PropsFloat), so the observation must be the model's —
    NaN, infinities and -0 included; only Clamp with hi < lo is outside the domain
-   as for the integers.  Range / RangeRight at float64 is the exception where the
-   CODE (and hence its model) does not meet the property text: "stops before
-   reaching end" is judged here on the returned terms themselves
-   ([frange_before_end]), and a call that does not return (observation [3]) never
-   satisfies it.  C13_PropsFloat.C13_frange_reaches_end_refuted /
-   C13_frange_hangs_refuted give the inputs; the failing cases are attributed to
-   the known finding KF-C13-float-range (tools/matchers.d/c13.py). *)
+   as for the integers.  For Range / RangeRight at float64 the clause "stops
+   before reaching end" is in addition judged on the observed terms themselves
+   ([frange_before_end]; for the model it is the theorem
+   C13_PropsFloat.C13_frange_before_end), and an observation [3] (the call did
+   not return) never satisfies the property. *)
 Definition c13_holds (w obs : list Z) : bool :=
   c13_agree w obs &&
   match w, obs with
